@@ -257,6 +257,7 @@ def run(pid, tier, seed, work, log, replay=None):
     scen = gated + free
     traces, crashed = V.run_scenarios(tb, scen, work, timeout=1500)
     res['violations'] += V.crash_verdicts(crashed, pid)
+    res['violations'] += V.died_verdicts(traces, pid)
     nval = 0
     nevents = 0
     nontrivial = set()
